@@ -28,19 +28,29 @@ Theorem txt_reader_total : forall k ls, (exists o, txt_decode k ls = Ok o) \/ (e
 Proof. intros k ls. destruct (txt_decode k ls); eauto. Qed.
 Print Assumptions txt_reader_total.
 
-(* the front end's second attempt (auto-detection) defeats prefix rejection: a strict prefix of a binary
-   Matrix file whose first byte is the character '1' is accepted by the text reader as a 1x1 matrix.
-   Witness replayed on the implementation by checks/c19.py (known finding). *)
+(* the front end's second attempt (auto-detection): on the pinned tree a strict prefix of a binary Matrix file whose
+   first byte is the character '1' was accepted by the text reader as a 1x1 matrix (witness below, confirmed on the
+   code, then repaired by fix ef4293b: the text format now demands a tag made of text characters only).  On the
+   repaired front end the same witness is refused: *)
 Definition w_full49 : obj := OFull 49 2 (repeat 0 98).
 Definition w_view : list line :=
   [{| l_empty := false; l_term := false; l_vals := [4607182418800017408]; l_i := Some 1; l_j := None; l_v := None;
       l_hnl := Some 1; l_hnc := None |}].
+(* residual: a prefix made of text characters only IS a text file -- the first byte of that same file *)
+Definition w_view1 : list line :=
+  [{| l_empty := false; l_term := false; l_vals := [4607182418800017408]; l_i := None; l_j := None; l_v := None;
+      l_hnl := Some 1; l_hnc := None |}].
 Theorem load_prefix_rejected_refuted :
   exists m, (m < length (encode w_full49))%nat /\
-    load [FMat; FTxt; FTex; FBin] 0 KFull {| f_bytes := firstn m (encode w_full49); f_lines := w_view; f_ascii := true |}
+    load [FMat; FTxt; FTex; FBin] 0 KFull {| f_bytes := firstn m (encode w_full49); f_lines := w_view1; f_ascii := true |}
     = Ok (OFull 1 1 [4607182418800017408]).
-Proof. exists 20%nat. split; [vm_compute; lia|vm_compute; reflexivity]. Qed.
+Proof. exists 1%nat. split; [vm_compute; lia|vm_compute; reflexivity]. Qed.
 Print Assumptions load_prefix_rejected_refuted.
+
+Example fallback_witness_now_rejected :
+  load [FMat; FTxt; FTex; FBin] 0 KFull {| f_bytes := firstn 20 (encode w_full49); f_lines := w_view; f_ascii := true |}
+  = Err EStorage.
+Proof. vm_compute. reflexivity. Qed.
 
 (* under the hypothesis that auto-detection does not offer the file to another reader, the front end refuses it *)
 Theorem load_prefix_rejected_partial : forall order o m ls,
@@ -84,3 +94,37 @@ Theorem mesh_announced_count_checked : forall bs pts trs,
   12 * Z.of_nat (length pts) <= Z.of_nat (length bs) /\ 12 * Z.of_nat (length trs) <= Z.of_nat (length bs).
 Proof. intros bs pts trs H. apply ReaderCountsProofs.mesh_announced_count_checked in H. tauto. Qed.
 Print Assumptions mesh_announced_count_checked.
+
+(* bnd reader (line-structured tokens, keywords, counts, stream tests -- Geom/ReaderCounts.v, tied by the sweep) *)
+Theorem bnd_announced_count_checked : forall s pts trs,
+  read_bnd s = MOk (pts, trs) ->
+  exists npts ntr : Z,
+    Z.of_nat (length pts) = Z.max 0 npts /\ Z.of_nat (length trs) = Z.max 0 ntr /\
+    3 * Z.max 0 npts + 3 * Z.max 0 ntr + 2 <= Z.of_nat (rtotal s).
+Proof. exact ReaderCountsProofs.bnd_announced_count_checked. Qed.
+Print Assumptions bnd_announced_count_checked.
+
+Theorem bnd_short_file_rejected : forall s pts trs,
+  Z.of_nat (rtotal s) < 3 * Z.of_nat (length pts) + 3 * Z.of_nat (length trs) + 2 -> read_bnd s <> MOk (pts, trs).
+Proof. exact ReaderCountsProofs.bnd_short_file_rejected. Qed.
+Print Assumptions bnd_short_file_rejected.
+
+(* .geom / .cond readers: c11's character-level models (Geom/GeomLex.v, tied exactly by C11).  They are total functions
+   of the text; a failed stream stays failed through a Domains section; and a Domains section announced with n entries
+   yields n entries, each of which consumed its own `Domain` keyword from the text, or the stream is failed (and
+   lex_geom answers None: the file is refused).  The chain from the start of the file to the section (the input only
+   shrinks through every earlier extraction) is proved for the section's own operations only. *)
+From OM Require Import Geom.GeomFile Geom.GeomLex Geom.GeomLexCounts.
+Theorem geom_reader_total : forall text, (exists x, lex_geom text = Some x) \/ lex_geom text = None.
+Proof. exact GeomLexCounts.geom_reader_total. Qed.
+Print Assumptions geom_reader_total.
+Theorem cond_reader_total : forall text, (exists x, lex_cond text = Some x) \/ lex_cond text = None.
+Proof. exact GeomLexCounts.cond_reader_total. Qed.
+Print Assumptions cond_reader_total.
+Theorem geom_domains_announced_count_checked : forall v n s s' l, read_domains v n s = (s', l) ->
+  length l = n /\ (bad s' = false -> (6 * n + slen s' <= slen s)%nat).
+Proof. exact GeomLexCounts.read_domains_count. Qed.
+Print Assumptions geom_domains_announced_count_checked.
+Theorem geom_failed_stream_stays_failed : forall v n s, bad s = true -> bad (fst (read_domains v n s)) = true.
+Proof. exact GeomLexCounts.read_domains_bad. Qed.
+Print Assumptions geom_failed_stream_stays_failed.
